@@ -6,9 +6,9 @@ CONSTANTS
   MaxExtra = 2
   ReqSetIds = {"none", "scalars", "names", "mixed", "mixed2"}
   PathValIds = {"x1", "i2", "s2", "i3", "s4", "sp", "j2", "c2"}
-  VarLeaves = {"name", "parent", "class", "inner.name", "inner.sub_title", "inner.kind", "inner.tags", "kind", "flag", "ids", "opt_n", "label_text", "r_double", "r_float", "r_int64", "r_uint64", "r_int32", "r_fixed64", "r_fixed32", "r_bool", "r_string", "r_bytes", "r_uint32", "r_sfixed32", "r_sfixed64", "r_sint32", "r_sint64"}
+  VarLeaves = {"name", "parent", "class", "inner.name", "inner.sub_title", "inner.kind", "inner.tags", "kind", "flag", "ids", "opt_n", "opt_s", "label_text", "r_double", "r_float", "r_int64", "r_uint64", "r_int32", "r_fixed64", "r_fixed32", "r_bool", "r_string", "r_bytes", "r_uint32", "r_sfixed32", "r_sfixed64", "r_sint32", "r_sint64"}
   Numerics = {FALSE, TRUE}
-  RespTypes = {"A", "B"}
+  RespTypes = {"A", "B", "P"}
   ReplyIds = {"full", "part", "empty"}
   Calls = 8
   Mutant = "none"
